@@ -167,3 +167,28 @@ Example ex_modes :
   mode_of [([ex_t], 384%N)] (fst (extract_cmd true ex_fs [] ex_outdir [] ex_benign)) [ex_t] = Some 384%N /\
   mode_of [([ex_t], 384%N)] (fst (extract_cmd true ex_fs [] ex_outdir [] ex_benign)) [ex_o; ex_a] = Some 420%N.
 Proof. vm_compute. split; reflexivity. Qed.
+
+(* ---- the command with any output argument, standard output included ---- *)
+Theorem extract_main_contained fs cwd outdir pathflag roots fs' out res :
+  (forall k, look fs (Nat.iter k (@removelast name) cwd) = Some NDir) ->
+  extract_main true fs cwd outdir pathflag roots = (fs', out, res) ->
+  (outdir = s_dash -> fs' = fs) /\
+  (outdir <> s_dash ->
+   out = [] /\
+   forall root, eval_symlinks_str fs cwd outdir = Some root ->
+     forall p, ~ under (phys_of cwd root) p -> look fs' p = look fs p).
+Proof.
+  intros Hc H. unfold extract_main in H. split.
+  - intros ->. rewrite bytes_eqb_refl in H. destruct (path_segments pathflag).
+    + destruct (stdout_roots [] l roots 0). inversion H; reflexivity.
+    + inversion H; reflexivity.
+  - intro Hne. destruct (bytes_eqb outdir s_dash) eqn:E.
+    { apply bytes_eqb_eq in E. contradiction. }
+    destruct (extract_cmd true fs cwd outdir pathflag roots) as [f r] eqn:X. inversion H; subst.
+    split; [reflexivity|]. intros root He. eapply extract_cmd_contained; eassumption.
+Qed.
+
+Example ex_stdout :
+  extract_main true ex_fs [] s_dash [] ex_benign = (ex_fs, [x50], XErr) /\
+  extract_main true ex_fs [] s_dash ex_a ex_benign = (ex_fs, [x50], XOk 1).
+Proof. vm_compute. split; reflexivity. Qed.
